@@ -97,6 +97,12 @@ def cases(tier, seed):
             for kind in kinds:
                 for owners in (list(range(n)), [n - 1]):
                     yield [n, g, kind, list(perm), None, owners, False, {}, 'none']
+                # the setUp of a layer with several bases raises: its bases
+                # are left set up under whatever runs next
+                for node in range(n):
+                    if len(g[node]) >= 2:
+                        yield [n, g, kind, list(perm), None, list(range(n)), False,
+                               {node: {'setUp': 'ValueError'}}, 'none']
                 if tier == 'thorough':
                     for nie in range(n):
                         yield [n, g, kind, list(perm), None, list(range(n)), False,
